@@ -132,10 +132,18 @@ def find_component_connection_edge(
 ):
     indices = [np.zeros(1, dtype=np.int64) for i in range(2)]
     indices[0] = component1[
-        rejection_sample(np.int64(search_size), component1.shape[0], rng_state)
+        rejection_sample(
+            np.int64(min(search_size, component1.shape[0])),
+            component1.shape[0],
+            rng_state,
+        )
     ]
     indices[1] = component2[
-        rejection_sample(np.int64(search_size), component2.shape[0], rng_state)
+        rejection_sample(
+            np.int64(min(search_size, component2.shape[0])),
+            component2.shape[0],
+            rng_state,
+        )
     ]
     query_side = 0
     query_points = raw_data[indices[query_side]]
